@@ -48,7 +48,7 @@ func genBytes(allowNUL bool, minLen int) *rapid.Generator[string] {
 	piece := rapid.OneOf(
 		rapid.StringMatching(`[0-9]{1,12}`),
 		rapid.StringMatching(`[a-zA-Z$._-]{1,6}`),
-		rapid.SampledFrom([]string{`"`, `\`, `\\`, `\5C`, `\22`, `\2`, `\2G`, `\00`, `\0`, "\\x", " ", "\t", "\n", "%", "@", "!", "#", ":", ";", ",", "=", "(", ")", "{", "}", "*", "+", "-", "-5", "0", "00", "42", "1abc", "4294967295", "4294967296", "18446744073709551615", "18446744073709551616", "99999999999999999999", "\x7f", "\x80", "\xff", "\xc3\xa9", "é", "\xc3", "☃", "\x01", "\x1f", "c\"", "zeroinitializer", "true", "null", "x86_fp80", "i32", "label", "void", "declare", "0x10", "u0x1", "1e5", "1.0"}),
+		rapid.SampledFrom([]string{`"`, `\`, `\\`, `\5C`, `\22`, `\2`, `\2G`, `\00`, `\0`, "\\x", " ", "\t", "\n", "%", "@", "!", "#", ":", ";", ",", "=", "(", ")", "{", "}", "*", "+", "-", "-5", "-0", "-00", "-007", "0", "00", "42", "1abc", "4294967295", "4294967296", "18446744073709551615", "18446744073709551616", "99999999999999999999", "\x7f", "\x80", "\xff", "\xc3\xa9", "é", "\xc3", "☃", "\x01", "\x1f", "c\"", "zeroinitializer", "true", "null", "x86_fp80", "i32", "label", "void", "declare", "0x10", "u0x1", "1e5", "1.0"}),
 		rapid.Map(rapid.SliceOfN(rapid.ByteRange(lo, 255), 1, 4), func(b []byte) string { return string(b) }),
 	)
 	return rapid.Map(rapid.SliceOfN(piece, 1, 4), func(ps []string) string {
@@ -642,7 +642,7 @@ func TestPositions(t *testing.T) {
 // TestPositionsCatalogue runs a fixed list of dangerous strings through every position.
 func TestPositionsCatalogue(t *testing.T) {
 	const test = "PositionsCatalogue"
-	cat := []string{"a", "42", "0", "007", "1abc", "-5", "a b", `"`, `\`, `\5C`, `\\`, `\22`, "é", "\xff", "\x01", "4294967296", "18446744073709551616", "a\"b\\c", "x.y$z_-"}
+	cat := []string{"a", "42", "0", "007", "1abc", "-5", "-0", "-00", "a b", `"`, `\`, `\5C`, `\\`, `\22`, "é", "\xff", "\x01", "4294967296", "18446744073709551616", "a\"b\\c", "x.y$z_-"}
 	hx.Rule(test, fmt.Sprintf("every position x %d fixed strings (all digits, leading digit, leading '-', space, quote, backslash, \\5C, \\\\, non-UTF-8, numbers beyond 32 and 64 bits): same oracle as Positions", len(cat)))
 	i := 0
 	for _, pos := range positions {
